@@ -628,7 +628,8 @@ func UpdateExpressionValue(ctx context.Context, expr sqlparser.Expr, coder base.
 		return UpdateExpressionValue(ctx, expr.(*sqlparser.ParenExpr).Expr, coder, setting, updateFunc)
 	case *sqlparser.SQLVal:
 		switch val.Type {
-		case sqlparser.StrVal, sqlparser.HexVal, sqlparser.PgEscapeString, sqlparser.IntVal, sqlparser.HexNum:
+		// a bit-value literal (b'0100..') is a binary string as well: left out here it reached the database in the clear
+		case sqlparser.StrVal, sqlparser.HexVal, sqlparser.PgEscapeString, sqlparser.IntVal, sqlparser.HexNum, sqlparser.BitVal:
 			rawData, err := coder.Decode(val, setting)
 			if err != nil {
 				if err == utils.ErrDecodeOctalString || err == base.ErrUnsupportedExpression {
